@@ -1266,6 +1266,12 @@ func (u *Unit) havocModifies(sev *Ev, mods []Clause, c *Contract) {
 			continue
 		}
 		fresh := u.freshValue(lv.Typ, "mod", st)
+		if lv.K == lvGhost && strings.HasPrefix(lv.Name, "let:") && lv.Typ == nil {
+			// a ghost local: the fresh value has the sort of the current one
+			if cur := st.lets[lv.Name[4:]]; cur.K == vScalar && cur.S != "" {
+				fresh = Value{K: vScalar, T: u.fresh("mod", cur.S), S: cur.S, Typ: cur.Typ}
+			}
+		}
 		if lv.Typ != nil {
 			if _, ok := lv.Typ.Underlying().(*types.Map); ok && lv.K == lvHeap {
 				// field holding a map: contents change, the reference stays
